@@ -11,9 +11,12 @@
 #include <stdlib.h>
 #include <string.h>
 
-static FILE *tr_f;
-static int tr_first;
-static unsigned long tr_count;
+#ifndef TR_TLS
+#define TR_TLS /* the thread driver defines this as __thread: one trace file per thread */
+#endif
+static TR_TLS FILE *tr_f;
+static TR_TLS int tr_first;
+static TR_TLS unsigned long tr_count;
 
 static inline void tr_open(const char *path) {
     tr_f = fopen(path, "w");
